@@ -29,6 +29,21 @@ class Ctx:
     pass
 
 
+class warnings_off:
+    def __enter__(self):
+        import warnings
+        self.cm = warnings.catch_warnings()
+        self.cm.__enter__()
+        warnings.simplefilter("ignore")
+
+    def __exit__(self, *a):
+        return self.cm.__exit__(*a)
+
+
+def case_str(case):
+    return ", ".join("%s=%s" % (k, v if k != "V" else "%s" % (v[1],)) + ("" if k != "V" else "@fam%d" % v[0]) for k, v in case.items())
+
+
 def cm_struct(ref, cls):
     for e in ref["classmap"]:
         if e["class"] == cls:
@@ -234,7 +249,7 @@ def _run(c):
         elif f[0] == "CALLBACK" and f[3] != "ok":
             model_bad.add((cm_struct(ref, f[1]), f[2], "signature"))
             named.append("callback %s.%s signature" % (f[1], f[2]))
-        elif f[0] == "RESTYPE" and f[3] != "ok":
+        elif f[0] == "RESTYPE" and f[3] != "ok" and not any(x.get("kind") == "call" and (x["fn"], x["site"]) == (f[1], f[2]) for e_ in c.findings if e_.get("status", "known") == "known" for x in e_.get("lean_exceptions", [])):
             named.append("restype declaration of %s at %s" % (f[1], f[2]))
         elif f[0] == "FNATTR" and f[4] != "true":
             named.append("stray attribute %s.%s at %s" % (f[1], f[3], f[2]))
@@ -985,7 +1000,7 @@ def _run(c):
     for f in bad_decl:
         c.count(("restype", f[1], f[2]))
         dd = [d_ for d_ in py["ffi_decls"] if d_["fn"] == f[1] and "%s:%s" % (d_["module"], d_["scope"]) == f[2]]
-        c.violation("ffi-restype:%s@%s" % (f[1], f[2]), "%s sets clibrebound.%s.restype = %s but the C function returns %s" % (f[2], f[1], dd[0]["text"] if dd else "?", cs["protos"].get(f[1], {}).get("ret")),
+        c.violation(call_key(f[1], f[2]), "%s sets clibrebound.%s.restype = %s but the C function returns %s" % (f[2], f[1], dd[0]["text"] if dd else "?", cs["protos"].get(f[1], {}).get("ret")),
                     {"site": f[2], "function": f[1], "declared": dd[0] if dd else None, "c": cs["protos"].get(f[1])})
     for f in bad_calls:
         fnm, site, why = f[1], f[2], f[4]
@@ -1558,6 +1573,334 @@ print(json.dumps(res))
     if [sa[i_].t for i_ in range(3)] != t_saved:
         c.violation("live-field:reb_simulationarchive.t", "snapshots restore to times %r, saved at %r" % ([sa[i_].t for i_ in range(3)], t_saved), {})
     del sa, restored, src
+
+    # ================================================================ PAIRWISE CONJUNCTIONS of the option mechanism's factors
+    # factors: V = (family, name) | S = spelling (name / NAME / int) | P = previous state (fresh / next name / previous name / composite
+    # shortcut) | R = path to the object that is read (direct / copy / deepcopy / pickle / file restore / archive[-1]) | G = read-out
+    # (getter / text: repr or status()) | I = interleaved event (none / another family set afterwards / sentinel neighbours around the
+    # C member) | H = holder (sub-object re-fetched / held reference).  Cases come from a greedy all-pairs covering array; constraints
+    # are listed in `pair_excluded`.  The setter model (drv_c18 SEQ) runs the same histories: tie.
+    import random as _random, io as _io, contextlib as _ctx
+    rule.append("pairwise covering array over (family,name) x spelling x previous state x restore path x read-out x interleaved event x holder; "
+                "thorough adds the full (family,name) x spelling x path factorial; every direct history is also run through the Lean setter model")
+    shown = ref["opt"].get("shown_in", {})
+    composite_for = {("Simulation", "integrator"): "whckl", ("IntegratorWHFast", "kernel"): "whckm", ("IntegratorSABA", "type"): "sabacl4"}
+    famlist = [f for f in ref["options"] if locate(f)[3]["kind"][0] == "enm"]
+    Vvals = []
+    finfo = {}
+    for fi, fam in enumerate(famlist):
+        holder_, off_, size_, m_ = locate(fam)
+        enum_ = dict(cs["enums"][m_["kind"][1]])
+        items_ = py["dicts"].get(fam["dict"], {}).get("items", [])
+        cval_ = {}
+        for nm_, pv_ in items_:
+            cand = [ev for en, ev in enum_.items() if en.startswith(fam["prefix"]) and norm(en[len(fam["prefix"]):]) == norm(nm_)]
+            if len(cand) == 1:
+                cval_[nm_] = cand[0] % (1 << (8 * size_))
+        try:
+            s0 = rebound.Simulation()
+            up_ok = False
+            cand_up = [n_ for n_ in cval_ if n_.upper() != n_]
+            if cand_up:
+                setattr(holder_(s0), fam["property"], cand_up[0].upper())
+                up_ok = True
+        except Exception:
+            up_ok = False
+        finfo[fi] = dict(fam=fam, holder=holder_, off=off_, size=size_, names=[n_ for n_, _ in items_ if n_ in cval_], cval=cval_,
+                         pyval=dict(items_), upper=up_ok, key="%s.%s" % (fam["class"], fam["property"]))
+        Vvals += [(fi, n_) for n_ in finfo[fi]["names"]]
+    FACT = {"V": Vvals, "S": ["name", "NAME", "int"], "P": ["fresh", "next", "prev", "composite"],
+            "R": ["direct", "copy", "deepcopy", "pickle", "file", "archive"], "G": ["getter", "text"],
+            "I": ["none", "other_family", "neighbours"], "H": ["refetch", "held"]}
+    FN = list(FACT)
+    not_restored = set(ref["opt"].get("not_persisted", []))      # option fields the library documents / is known not to persist
+
+    def pair_excluded(asg):
+        """reason why a (partial) assignment cannot occur, else None"""
+        if "V" in asg:
+            fi, nm_ = asg["V"]
+            inf = finfo[fi]
+            if asg.get("S") == "NAME" and not inf["upper"]:
+                return "the setter of %s does not fold case" % inf["key"]
+            if asg.get("S") == "NAME" and nm_.upper() == nm_:
+                return "the name has no distinct upper-case spelling"
+            if asg.get("P") == "composite" and (inf["fam"]["class"], inf["fam"]["property"]) not in composite_for:
+                return "no composite shortcut assigns this family"
+            if asg.get("G") == "text" and inf["key"] not in shown:
+                return "no repr()/status() text shows this property"
+            if asg.get("H") == "held" and inf["fam"]["class"] == "Simulation":
+                return "the property lives on the Simulation itself (no sub-object to hold)"
+            if asg.get("R") in ("file", "archive") and inf["key"] in not_restored:
+                return "field is not persisted in archives (ref/C18_options.json not_persisted)"
+        return None
+    allpairs, excl_pairs = set(), {}
+    for i_, f in enumerate(FN):
+        for g in FN[i_ + 1:]:
+            for a in FACT[f]:
+                for b in FACT[g]:
+                    why = pair_excluded({f: a, g: b})
+                    if why:
+                        excl_pairs[(f, a, g, b)] = why
+                    else:
+                        allpairs.add((f, a, g, b))
+    # a pair of two non-V factors is applicable only if some V admits both
+    for pr in list(allpairs):
+        f, a, g, b = pr
+        if f != "V" and g != "V" and not any(pair_excluded({"V": v, f: a, g: b}) is None for v in Vvals):
+            allpairs.discard(pr)
+            excl_pairs[pr] = "no family admits both"
+
+    def pairs_of(case):
+        return {(f, case[f], g, case[g]) for i_, f in enumerate(FN) for g in FN[i_ + 1:]}
+    grng = _random.Random(18)            # the array itself does not depend on VERIF_SEED; the order of execution does
+    uncovered = set(allpairs)
+    array = []
+    guard = 0
+    while uncovered and guard < 20000:
+        guard += 1
+        best, bestn = None, -1
+        seedpair = grng.choice(sorted(uncovered, key=repr)) if guard % 7 else None
+        for _ in range(30):
+            case = {f: grng.choice(FACT[f]) for f in FN}
+            if seedpair:
+                case[seedpair[0]], case[seedpair[2]] = seedpair[1], seedpair[3]
+            if pair_excluded(case):
+                # repair: re-draw the non-fixed factors a few times
+                for _r in range(20):
+                    for f in FN:
+                        if not seedpair or f not in (seedpair[0], seedpair[2]):
+                            case[f] = grng.choice(FACT[f])
+                    if not pair_excluded(case):
+                        break
+                else:
+                    continue
+            n_ = len(pairs_of(case) & uncovered)
+            if n_ > bestn:
+                best, bestn = case, n_
+        if best is None or bestn <= 0:
+            continue
+        array.append(best)
+        uncovered -= pairs_of(best)
+    if c.thorough:       # 3-way for the factors closest to the mechanism
+        for v in Vvals:
+            for s_ in FACT["S"]:
+                for r_ in FACT["R"]:
+                    case = {"V": v, "S": s_, "R": r_, "P": grng.choice(FACT["P"]), "G": grng.choice(FACT["G"]), "I": grng.choice(FACT["I"]), "H": grng.choice(FACT["H"])}
+                    for _r in range(30):
+                        if not pair_excluded(case):
+                            break
+                        for f in ("P", "G", "I", "H"):
+                            case[f] = grng.choice(FACT[f])
+                    if not pair_excluded(case):
+                        array.append(case)
+    order = list(range(len(array)))
+    _random.Random(c.seed).shuffle(order)
+    covered = set()
+    seq_lines, seq_expect = [], []
+    rfile2 = os.path.join(work, "c18_pairs.bin")
+
+    def status_text(s_):
+        b = _io.StringIO()
+        with _ctx.redirect_stdout(b):
+            s_.status()
+        return b.getvalue()
+    for idx in order:
+        case = array[idx]
+        fi, bname = case["V"]
+        inf = finfo[fi]
+        fam, holder_, off_, size_ = inf["fam"], inf["holder"], inf["off"], inf["size"]
+        names_ = inf["names"]
+        k_ = names_.index(bname)
+        sim = rebound.Simulation()
+        sim.add(m=1.)
+        sim.add(m=1e-3, a=1.)
+        held = holder_(sim) if case["H"] == "held" else None
+        obj = lambda: held if held is not None else holder_(sim)
+        hist = []
+        try:
+            if case["P"] in ("next", "prev"):
+                a_ = names_[(k_ + (1 if case["P"] == "next" else -1)) % len(names_)]
+                setattr(obj(), fam["property"], a_)
+                hist.append("s:" + a_)
+            elif case["P"] == "composite":
+                sim.integrator = composite_for[(fam["class"], fam["property"])]
+            start = cbytes(sim, off_, size_)
+            arg = bname if case["S"] == "name" else (bname.upper() if case["S"] == "NAME" else int(inf["pyval"][bname]))
+            sent = []
+            if case["I"] == "neighbours":
+                stn = fam["struct"]
+                base_ = ctypes.addressof(sim) + off_ - cmember(cs, stn, fam["member"])["off"]
+                mem_ = cs["structs"][stn]["members"]
+                j_ = [x["name"] for x in mem_].index(fam["member"])
+                for nb in (mem_[j_ - 1] if j_ > 0 else None, mem_[j_ + 1] if j_ + 1 < len(mem_) else None):
+                    if nb is not None and nb["kind"][0] in ("int", "enm", "f64"):
+                        saved_ = ctypes.string_at(base_ + nb["off"], nb["size"])
+                        ctypes.memset(base_ + nb["off"], 0xA5, nb["size"])
+                        sent.append((nb, saved_, base_ + nb["off"]))
+            setattr(obj(), fam["property"], arg)
+            hist.append(("i:%d" % arg) if case["S"] == "int" else "s:" + arg)
+            for nb, saved_, addr_ in sent:
+                if ctypes.string_at(addr_, nb["size"]) != b"\xa5" * nb["size"]:
+                    c.violation("option-clobbers-neighbour:%s" % inf["key"], "%s = %r overwrites the neighbouring C member %s.%s" % (inf["key"], arg, fam["struct"], nb["name"]),
+                                {"python": "%s = %r" % (inf["key"], arg), "neighbour": nb["name"]})
+                ctypes.memmove(addr_, saved_, nb["size"])
+            if case["I"] == "other_family":
+                of = finfo[(fi + 1) % len(finfo)]
+                if of["fam"]["member"] != fam["member"] or of["fam"]["struct"] != fam["struct"]:
+                    setattr(of["holder"](sim), of["fam"]["property"], of["names"][-1])
+            if case["R"] == "direct" and " " not in "".join(hist):
+                seq_lines.append("SEQ %s %s %d %s" % (fam["class"], fam["property"], start if case["P"] != "composite" else start, " ".join(hist[-1:])))
+                seq_expect.append((cbytes(sim, off_, size_), getattr(obj(), fam["property"]), case))
+            if case["R"] == "direct":
+                tgt = sim
+            elif case["R"] == "copy":
+                tgt = sim.copy()
+            elif case["R"] == "deepcopy":
+                tgt = _copy.deepcopy(sim)
+            elif case["R"] == "pickle":
+                tgt = pickle.loads(pickle.dumps(sim))
+            else:
+                sim.save_to_file(rfile2, delete_file=True)
+                with warnings_off():
+                    tgt = rebound.Simulation(rfile2) if case["R"] == "file" else rebound.Simulationarchive(rfile2)[-1]
+            tobj = obj() if case["R"] == "direct" else holder_(tgt)
+            gotc = cbytes(tgt, off_, size_)
+            if case["G"] == "getter":
+                back, okb = getattr(tobj, fam["property"]), None
+                okb = back == bname
+            else:
+                txt = repr(tobj) if shown[inf["key"]] == "repr" else status_text(tgt)
+                back = txt[-160:]
+                okb = any(tok.strip("<>,") == bname or tok.strip("<>,").endswith("=" + bname) for tok in txt.replace("\t", " ").split())
+        except Exception as e:
+            c.violation("pairwise-raises:%s" % inf["key"], "case %s raises %s: %s" % (case_str(case), type(e).__name__, str(e)[:120]), {"case": case_str(case)})
+            continue
+        covered |= pairs_of(case)
+        dim["pairwise_cases"] += 1
+        c.count(("pw", idx), nontrivial=True)
+        if gotc != inf["cval"][bname] or not okb:
+            c.violation("pairwise:%s=%s" % (inf["key"], bname),
+                        "%s: C sees %d at %s.%s (expected %d); read-out %r (expected %r)" % (case_str(case), gotc, fam["struct"], fam["member"], inf["cval"][bname], back, bname),
+                        {"case": case_str(case), "c_bytes": gotc, "expected": inf["cval"][bname], "readout": str(back)})
+        del sim
+    missingp = sorted(allpairs - covered, key=repr)
+    c.cov["pairs"] = {"covered": len(covered & allpairs), "total": len(allpairs), "excluded": len(excl_pairs),
+                      "cases": len(array), "factors": {f: len(FACT[f]) for f in FN},
+                      "excluded_reasons": dict(collections.Counter(excl_pairs.values())), "missing": [list(map(str, x)) for x in missingp[:10]]}
+    if missingp:
+        c.broken.append("pairwise coverage of the option factors incomplete: %d of %d applicable pairs never executed (first: %s)" % (len(missingp), len(allpairs), missingp[0]))
+    # tie: the Lean setter model on the same (direct) histories
+    if seq_lines:
+        outl = [l for l in run_driver(exe, seq_lines) if l.startswith("SEQR")]
+        ndiff = 0
+        for l, (cv, rb, case) in zip(outl, seq_expect):
+            f_ = l.split("\t")
+            c.count(("seq", case_str(case)))
+            if len(f_) < 3 or int(f_[1]) % (1 << 32) != cv or f_[2] != str(rb):
+                ndiff += 1
+                if ndiff <= 2:
+                    c.corr_break("setter model and real property disagree on %s: model %s, C bytes %d, getter %r" % (case_str(case), f_[1:], cv, rb), {"case": case_str(case)})
+        c.cov["setter_model_histories_compared"] = len(outl)
+        if len(outl) != len(seq_lines):
+            c.corr_break("drv_c18 returned %d SEQR lines for %d histories" % (len(outl), len(seq_lines)))
+
+    # ================================================================ anchors and public entry points (extracted from the source of this run)
+    rule.append("entry points: every ctypes.Structure class statement and every restype/argtypes assignment found by a text scan of rebound/**/*.py must be in the "
+                "extracted tables; every property with a setter of every mirrored class and every ctypes field must have been exercised; every C function Python calls must be exported")
+    import re as _re2
+    pkg = os.path.join(d, "rebound")
+    src_classes, src_ffi = [], []
+    for root_, _dirs, files_ in os.walk(pkg):
+        if "tests" in root_.split(os.sep):
+            continue
+        for fn_ in files_:
+            if not fn_.endswith(".py"):
+                continue
+            rel = os.path.relpath(os.path.join(root_, fn_), d)
+            for ln_, line_ in enumerate(open(os.path.join(root_, fn_), errors="replace"), 1):
+                mcls = _re2.match(r"\s*class\s+(\w+)\s*\(([^)]*)\)", line_)
+                if mcls and _re2.search(r"\b(Structure|Union)\b", mcls.group(2)):
+                    src_classes.append((rel, ln_, mcls.group(1)))
+                if line_.lstrip().startswith("#"):
+                    continue
+                mf = _re2.search(r"([\w.]+)\.(restype|argtypes|res_type|arg_types|errcheck)\s*=(?!=)", line_)
+                if mf:
+                    src_ffi.append((rel, ln_, mf.group(1), mf.group(2), line_.strip()))
+    missing_cls = [x for x in src_classes if x[2] not in py["classes"]]
+    ext_decl = {(d_["module"].replace(".", "/") + ".py", d_["fn"], d_["attr"]) for d_ in py["ffi_decls"]}
+    ext_decl |= {(d_["module"].replace(".", "/") + "/__init__.py", d_["fn"], d_["attr"]) for d_ in py["ffi_decls"]}
+    indirect_ok = ref["opt"].get("ffi_indirect_ok", [])
+    missing_ffi = []
+    for rel, ln_, base_, attr, text in src_ffi:
+        if base_.startswith("clibrebound."):
+            if (rel, base_.split(".", 1)[1], attr) not in ext_decl:
+                missing_ffi.append("%s:%d %s" % (rel, ln_, text))
+        elif not any(x["file"] == rel and x["text"] in text for x in indirect_ok):
+            missing_ffi.append("%s:%d %s" % (rel, ln_, text))
+    # properties with a setter: exercise the ones no sweep above touched, then require all
+    exercised = {(f["class"], f["property"]) for f in ref["options"]} | {(f_["cls"], f_["prop"]) for f_ in py["fnopts"]}
+    exercised |= {("Simulation", p_) for p_ in cbprops} | {("Simulation", "units"), ("Particle", "hash"), ("Particle", "xyz"), ("Particle", "vxyz")}
+    sim = mksim(3)
+    elvals = dict(a=2.2, e=0.2, inc=0.3, Omega=0.4, omega=0.5, pomega=0.9, f=0.6, M=0.7, l=1.2, theta=1.3, T=0.8, P=9.0, pal_h=0.05, pal_k=0.06, pal_ix=0.07, pal_iy=0.08)
+    pcl = classes["Particle"]
+    for pn, pv in vars(pcl).items():
+        if isinstance(pv, property) and pv.fset is not None and ("Particle", pn) not in exercised and pn in elvals:
+            p1 = sim.particles[1]
+            try:
+                setattr(p1, pn, elvals[pn])
+                back = getattr(sim.particles[1], pn)
+            except Exception as e:
+                c.cov.setdefault("particle_setters_raising", {})[pn] = str(e)[:80]
+                continue
+            exercised.add(("Particle", pn))
+            dim["entry_point_particle_element_setters"] += 1
+            c.count(("pset", pn))
+            ok_ = abs(back - elvals[pn]) < 1e-9 or abs(abs(back - elvals[pn]) - 2 * math.pi) < 1e-9
+            raw_ok = all(struct.unpack("<d", rd(pptr(sim) + pcs["size"] + cmember(cs, "reb_particle", a_)["off"], 8))[0] == getattr(sim.particles[1], a_) for a_ in ("x", "y", "z", "vx", "vy", "vz", "m"))
+            if not ok_ or not raw_ok:
+                c.violation("property:Particle." + pn, "particles[1].%s = %r reads back %r; Python coordinates equal the C bytes: %s" % (pn, elvals[pn], back, raw_ok), {"python": "sim.particles[1].%s = %r" % (pn, elvals[pn])})
+    del sim
+    sim = mksim(2, "bs")
+    ode = sim.create_ode(length=2, needs_nbody=False)
+    ode.derivatives = lambda o_, yd, y, t: None
+    dm = cmember(cs, "reb_ode", "derivatives")
+    if int.from_bytes(rd(ctypes.addressof(ode) + dm["off"], 8), "little") == 0:
+        c.violation("callback:ODE.derivatives", "ode.derivatives = f leaves the C member NULL", {})
+    exercised.add(("ODE", "derivatives"))
+    del ode, sim
+    sim = mksim(3)
+    sim.add_variation()
+    vc0 = sim.var_config[0]
+    vc0.lrescale = 3.25
+    lm = cmember(cs, "reb_variational_configuration", "lrescale")
+    vp_ = int.from_bytes(rd(ctypes.addressof(sim) + cmember(cs, SIMST, "var_config")["off"], 8), "little")
+    if struct.unpack("<d", rd(vp_ + lm["off"], 8))[0] != 3.25 or sim.var_config[0].lrescale != 3.25:
+        c.violation("property:Variation.lrescale", "var_config[0].lrescale = 3.25 is not in the C entry", {})
+    exercised.add(("Variation", "lrescale"))
+    del vc0, sim
+    allprops = [(cn, pn) for cn, cls_ in classes.items() for pn, pv in vars(cls_).items() if isinstance(pv, property) and pv.fset is not None]
+    not_ex = sorted(set(allprops) - exercised)
+    called = sorted({cl["fn"] for cl in py["ffi_calls"]})
+    not_exported = [f_ for f_ in called if not hasattr(clib, f_)]
+    c.cov["entry_points"] = {"structure_class_statements_in_source": len(src_classes), "in_extracted_table": len(src_classes) - len(missing_cls),
+                             "ffi_attribute_assignments_in_source": len(src_ffi), "accounted_for": len(src_ffi) - len(missing_ffi),
+                             "properties_with_setter": len(allprops), "exercised": len(allprops) - len(not_ex), "not_exercised": ["%s.%s" % x for x in not_ex],
+                             "ctypes_fields": sum(len(v["members"]) for v in py["classes"].values()), "ctypes_fields_exercised": field_cases,
+                             "c_functions_called_from_python": len(called), "exported_by_the_library": len(called) - len(not_exported)}
+    if missing_cls:
+        c.broken.append("ctypes Structure classes in the source that the extraction did not see: %s" % missing_cls[:5])
+    if missing_ffi:
+        c.broken.append("restype/argtypes assignments in the source that are in no extracted table: %s" % missing_ffi[:5])
+    if not_ex:
+        c.broken.append("entry points (properties with a setter) not exercised in this run: %s" % ["%s.%s" % x for x in not_ex])
+    if field_cases != sum(len(v["members"]) for v in py["classes"].values()):
+        c.broken.append("not every ctypes field was exercised")
+    for f_ in not_exported:
+        site_ = ["%s:%s" % (cl["module"], cl["scope"]) for cl in py["ffi_calls"] if cl["fn"] == f_][0]
+        c.violation(call_key(f_, site_), "%s calls clibrebound.%s which the library does not export" % (site_, f_), {"function": f_, "site": site_,
+                    "python": "rebound.clibrebound.%s" % f_})
+    if len(src_classes) < 20 or len(src_ffi) < 55:
+        c.broken.append("source scan found only %d class statements / %d ffi assignments" % (len(src_classes), len(src_ffi)))
 
     # ---- dimensions covered by the earlier sweeps
     dim["set_A_then_B_named_options"] = pair_cases
